@@ -42,6 +42,28 @@ def load_known():
     return json.load(open(path))["findings"]
 
 
+def load_baseline():
+    path = os.path.join(ROOT, "baseline", "proved.json")
+    if not os.path.exists(path):
+        return {}
+    return json.load(open(path))
+
+
+_WITNESS = {}
+
+
+def witness_fails(kf):
+    """a listed finding suppresses a failed obligation only while its recorded witness still fails"""
+    w = (kf.get("witness") or {}).get("scenario")
+    if w is None:
+        return True
+    if w not in _WITNESS:
+        p = subprocess.run([VENV_PY, os.path.join(ROOT, "checks", "witness.py"), w], capture_output=True, text=True,
+                           env=dict(os.environ, PYTHONDONTWRITEBYTECODE="1"), timeout=300)
+        _WITNESS[w] = p.returncode == 1
+    return _WITNESS[w]
+
+
 # ---------------------------------------------------------------- model -> input
 def parse_values(out):
     """parse a (get-value ...) answer into {name: python value}"""
@@ -131,6 +153,8 @@ def verify_contract(fid, tier, timeout_s):
     for oid, rs in by.items():
         sts = {r["status"] for r in rs}
         st = "refuted" if "refuted" in sts else "undecided" if "undecided" in sts else "proved"
+        if st == "undecided" and any(r.get("weak_sat") for r in rs):
+            st = "refuted-weak"
         rec["obligations"][oid] = dict(status=st, vcs=len(rs), seconds=round(sum(r["seconds"] for r in rs), 3),
                                        solvers=sorted({str(r["solver"]) for r in rs if r["solver"]}),
                                        kind=rs[0]["ob"].kind, text=rs[0]["ob"].text[:200],
@@ -175,6 +199,8 @@ def write_replay(prop, name, data):
 def main(argv):
     if "--setup" in argv:
         return setup()
+    if "--write-baseline" in argv:
+        return write_baseline()
     prop = argv[argv.index("--property") + 1]
     tier = os.environ.get("VERIF_TIER") or (argv[argv.index("--tier") + 1] if "--tier" in argv else "quick")
     if "--tier" in argv:
@@ -187,6 +213,22 @@ def main(argv):
         traceback.print_exc()
         print("CHECKER-ERROR property=%s (exit 3; not a violation)" % prop)
         return 3
+
+
+def write_baseline():
+    """record which obligations are proved on the tree as it is now (run on the unchanged tree, committed)"""
+    C.load_all()
+    out = {}
+    for fid, con in sorted(C.CONTRACTS.items()):
+        if con.trusted:
+            continue
+        rec, eng, res = verify_contract(fid, "quick", 10)
+        out[fid] = dict(ast=rec["ast_hash"], proved=sorted(o for o, v in rec["obligations"].items() if v["status"] == "proved"),
+                        not_proved=sorted(o for o, v in rec["obligations"].items() if v["status"] != "proved"), error=rec["error"])
+        print(fid, len(out[fid]["proved"]), "proved;", out[fid]["not_proved"], rec["error"] or "")
+    os.makedirs(os.path.join(ROOT, "baseline"), exist_ok=True)
+    json.dump(out, open(os.path.join(ROOT, "baseline", "proved.json"), "w"), indent=1)
+    return 0
 
 
 def setup():
@@ -213,7 +255,8 @@ def run_property(prop, tier, seed, t0):
     import registry
     spec = registry.PROPS[prop]
     timeout_s = 10 if tier == "quick" else 60
-    known = [k for k in load_known() if k["property"] == prop and k.get("status") == "open"]
+    known = [k for k in load_known() if prop in k.get("properties", [k.get("property")]) and k.get("status") == "open"]
+    baseline = load_baseline()
     known_hit = {}
     violations = []       # (name, replay path, tail)
     functions = []
@@ -249,7 +292,8 @@ def run_property(prop, tier, seed, t0):
                     samples.append(dict(obligation=oid, status="proved", vcs=o["vcs"], solvers=o["solvers"], clause=o["text"]))
                 continue
             kf = [k for k in known if k.get("obligation") == oid]
-            if o["status"] == "undecided":
+            was_proved = oid in baseline.get(fid, {}).get("proved", [])
+            if o["status"] == "undecided" or (o["status"] == "refuted-weak" and not was_proved and not kf):
                 undecided.append(oid)
                 need_bounded = True
                 continue
@@ -257,6 +301,8 @@ def run_property(prop, tier, seed, t0):
             failing = None
             solver_out = ""
             for r in res:
+                if r["ob"].oid == oid and r.get("weak_sat") and not solver_out:
+                    solver_out = "model of the instantiated VC (%s):\n%s" % (r.get("weak_solver"), r.get("weak_output", ""))
                 if r["ob"].oid == oid and r["status"] == "refuted":
                     solver_out = r["output"]
                     try:
@@ -273,10 +319,11 @@ def run_property(prop, tier, seed, t0):
                 b = bounded_run(fid, tier, seed)
                 if b and b["failures"]:
                     failing = b["failures"][0]
-            if kf:
+            if kf and witness_fails(kf[0]):
                 known_hit[kf[0]["id"]] = kf[0]
                 continue
             data = dict(property=prop, contract=fid, obligation=oid, clause=o["text"], lines=o["lines"],
+                        status=o["status"], proved_on_baseline=was_proved,
                         input=failing["input"] if failing else None,
                         observed=failing["failures"] if failing else None, solver_output=solver_out[:4000])
             path = write_replay(prop, oid, data)
